@@ -37,10 +37,10 @@ static inline a_size idx_val(long v, size_t siz)
 enum
 {
     OP_PUSH_BACK = 1, OP_PUSH_FORE, OP_INSERT, OP_PULL_BACK, OP_PULL_FORE, OP_REMOVE, OP_STORE, OP_ERASE,
-    OP_SETN, OP_SETM, OP_SETZ, OP_SORT, OP_SORT_FORE, OP_SORT_BACK, OP_PUSH_SORT, OP_SEARCH, OP_SWAP, OP_ACCESS, OP_NEW
+    OP_SETN, OP_SETM, OP_SETZ, OP_SORT, OP_SORT_FORE, OP_SORT_BACK, OP_PUSH_SORT, OP_SEARCH, OP_SWAP, OP_ACCESS, OP_NEW, OP_DIE
 };
 static const char *op_names[] = {"?", "push_back", "push_fore", "insert", "pull_back", "pull_fore", "remove", "store", "erase",
-                                 "setn", "setm", "setz", "sort", "sort_fore", "sort_back", "push_sort", "search", "swap", "access", "new"};
+                                 "setn", "setm", "setz", "sort", "sort_fore", "sort_back", "push_sort", "search", "swap", "access", "new", "die"};
 
 // ------------------------------------------------------------------ elements
 // byte 0 = key<<4 | serial; the other bytes are a fixed function of (byte0, index) so that a
@@ -767,6 +767,35 @@ struct Harness
     // ---------------------------------------------------------------- C07: allocation faults at every request of every operation
     void expand_faults(const std::string &key, xs::Sink &out)
     {
+        // destruction while the allocator refuses everything: it needs no memory, so every block is still released and every element destroyed
+        for (int with_dtor = 0; with_dtor < 2; ++with_dtor)
+        {
+            xs::Op tag{OP_DIE, with_dtor, 0, 0};
+            if (!out.enter(tag)) { continue; }
+            Live L;
+            make(L, key);
+            Ck ck;
+            ++fault_runs;
+            dtor_log.clear();
+            g_siz = L.c->siz_;
+            shim::arm(0, true);
+            F(die)(L.c, with_dtor ? log_dtor : nullptr);
+            shim::disarm();
+            L.c = nullptr;
+            if (L.aux) { F(die)(L.aux, nullptr); L.aux = nullptr; }
+            if (shim::st().live_blocks != 0) { ck.fail("leak", std::to_string(shim::st().live_blocks) + " block(s) still allocated after the container was destroyed"); }
+            else if (!shim::st().error.empty()) { ck.fail("memory", shim::st().error); }
+            else if (with_dtor)
+            {
+                Model got = dtor_log, want = L.m;
+                std::sort(got.begin(), got.end());
+                std::sort(want.begin(), want.end());
+                if (got != want) { ck.fail("die-dtor", "destruction did not run the destructor exactly once on every element"); }
+            }
+            out.leave();
+            if (!ck.ok()) { out.viol(tag, std::string(CNAME "|die|oom@all|") + ck.cls, "every allocation request fails during the destruction of " + key_str(key) + ": " + ck.err); continue; }
+            out.succ(tag, key, "oom", "die");
+        }
         for (const xs::Op &o0 : menu(key))
         {
             // 1. fault-free run: number of requests and successor
